@@ -92,13 +92,13 @@ fn call_form_deep(tape: &[u32], st: &mut Stats) -> CaseResult {
     run(tape, st, &cfg_deep())
 }
 
-/// "at any nesting": calls nested 1-120 deep (in first or second arguments) and one call of the text
-/// wrapped in 0-200 additional parentheses
+/// "at any nesting": calls nested 1-170 deep (in first or second arguments) and one call or operand
+/// of the text wrapped in 0-329 additional parentheses
 fn call_form_nesting(tape: &[u32], st: &mut Stats) -> CaseResult {
     let mut t = Tape::new(tape);
     let cfg = CaseCfg {
         table: TableCfg { alpha_pct: 85, max_bin: 4, max_un: 2, ..TableCfg::default() },
-        tree: TreeCfg { max_operands: 120, lit_pct: 35, unary_pct: 3, shape_weights: [2, 3, 5], ..TreeCfg::default() },
+        tree: TreeCfg { max_operands: 170, lit_pct: 35, unary_pct: 3, shape_weights: [2, 3, 5], ..TreeCfg::default() },
         render: RenderCfg { call_pct: 97, sym_call_pct: 40, redundant_paren_pct: 0, juxta_pct: 50, ..RenderCfg::default() },
         max_vars: 4,
         weird_pct: 0,
@@ -126,18 +126,25 @@ fn call_form_nesting(tape: &[u32], st: &mut Stats) -> CaseResult {
             comma
         })
         .collect();
-    let extra = match t.choose(4) {
+    let extra = match t.choose(6) {
         0 => 0,
         1 => 1 + t.choose(62),
         2 => 60 + t.choose(12),
-        _ => 64 + t.choose(137),
+        3 | 4 => 64 + t.choose(137),
+        _ => 250 + t.choose(80),
     };
     let mut wrapped_depth = 0;
-    if !calls.is_empty() && extra > 0 {
-        let start = *t.pick(&calls);
+    // what is wrapped: a whole call, or a single operand (plain parentheses inside an argument)
+    let operands: Vec<usize> = (0..case.toks.len()).filter(|i| case.toks[*i].kind == TokKind::Operand).collect();
+    let wrap_operand = !operands.is_empty() && t.chance(40);
+    if (!calls.is_empty() || wrap_operand) && extra > 0 {
+        let start = if wrap_operand { *t.pick(&operands) } else { *t.pick(&calls) };
         let mut d = 0i32;
         let mut end = start;
         for (k, tk) in case.toks.iter().enumerate().skip(start + 1) {
+            if wrap_operand {
+                break;
+            }
             match tk.kind {
                 TokKind::Open => d += 1,
                 TokKind::Close => {
@@ -173,8 +180,11 @@ fn call_form_nesting(tape: &[u32], st: &mut Stats) -> CaseResult {
     st.class_if(calls.len() >= 65, ">=65 calls");
     st.class_if(depth >= 64, "parenthesis depth >= 64");
     st.class_if(depth >= 128, "parenthesis depth >= 128");
-    st.class_if(extra >= 64 && !calls.is_empty(), "a call inside >= 64 extra parentheses");
-    st.class_if(wrapped_depth + extra >= 64 && !calls.is_empty(), "a call starting at parenthesis depth >= 64");
+    st.class_if(depth >= 256, "parenthesis depth >= 256");
+    st.class_if(calls.len() >= 130, ">=130 calls");
+    st.class_if(wrap_operand && extra >= 256 && !calls.is_empty(), "an operand inside >= 256 plain parentheses, in a text with calls");
+    st.class_if(extra >= 64 && !calls.is_empty() && !wrap_operand, "a call inside >= 64 extra parentheses");
+    st.class_if(wrapped_depth + extra >= 64 && !calls.is_empty() && !wrap_operand, "a call starting at parenthesis depth >= 64");
     if !calls.is_empty() && depth >= 20 {
         if st.nontrivial(&format!("{}|{}", case.text, describe_table(&case.table))) && st.want_sample() {
             st.sample(case.describe());
@@ -341,8 +351,8 @@ pub fn def() -> PropDef {
             },
             SubCheck {
                 name: "call_form_nesting",
-                rule: "table(85% alphabetic) x tree(1-120 operands; random, left-deep and right-deep shapes) rendered with 97% calls, one call of the text wrapped in 0, 1-62, 60-71 or 64-200 additional parentheses; non-trivial = a call and parenthesis depth >= 20; distinct by text+table",
-                kind: Kind::Tape { len: 2500, quick: 1_500, thorough: 100_000, f: call_form_nesting },
+                rule: "table(85% alphabetic) x tree(1-170 operands; random, left-deep and right-deep shapes) rendered with 97% calls, one call or one operand of the text wrapped in 0, 1-62, 60-71, 64-200 or 250-329 additional parentheses; non-trivial = a call and parenthesis depth >= 20; distinct by text+table",
+                kind: Kind::Tape { len: 3500, quick: 1_500, thorough: 100_000, f: call_form_nesting },
             },
             SubCheck {
                 name: "call_form_float",
